@@ -12,8 +12,11 @@ A case is JSON-able:
   arg     value of --content / --base-directory (bytes, may contain @S@) or None
   input   path of the torrent file relative to the sandbox (also for stdin: where it is kept)
 """
-import hashlib, json, os, shutil, stat, tempfile
+import hashlib, json, os, re, shutil, stat, sys, tempfile, threading
 import lib
+
+sys.setrecursionlimit(max(sys.getrecursionlimit(), 30000))      # torrents nested ~2050 deep are part of the stream
+threading.stack_size(256 * 1024 * 1024)
 
 
 def rule_of(mode):
@@ -159,20 +162,187 @@ def _lex(path):
     return out
 
 
+I64 = (-(1 << 63), (1 << 63) - 1)
+MAX_DEPTH = 2048                      # bendy's documented default nesting limit
+
+
+def _depth(v):
+    """containers on the deepest path (an integer or string adds nothing)"""
+    best, stack = 0, [(v, 0)]
+    while stack:
+        x, d = stack.pop()
+        if isinstance(x, list):
+            best = max(best, d + 1)
+            stack += [(y, d + 1) for y in x]
+        elif isinstance(x, tuple) and x and x[0] == "d":
+            best = max(best, d + 1)
+            stack += [(y, d + 1) for _, y in x[1]]
+    return best
+
+
+def _ints(v):
+    stack = [v]
+    while stack:
+        x = stack.pop()
+        if isinstance(x, bool):
+            continue
+        if isinstance(x, int):
+            yield x
+        elif isinstance(x, list):
+            stack += x
+        elif isinstance(x, tuple) and x and x[0] == "d":
+            stack += [y for _, y in x[1]]
+
+
+def _text(x):
+    return isinstance(x, bytes) and _utf8(x)
+
+
+_SCHEME = re.compile(rb"^[A-Za-z][A-Za-z0-9+.\-]*:")
+
+TOP_KEYS = (b"announce", b"announce-list", b"comment", b"created by", b"creation date", b"encoding", b"info", b"nodes")
+INFO_OWN = (b"private", b"piece length", b"name", b"source", b"pieces", b"update-url")
+
+
+def typed_problem(v, info):
+    """why the metainfo is not one imdl documents as loadable (BEP 3 / BEP 5 / BEP 12 / BEP 27 types of the keys
+    imdl models, 64-bit integers, bounded nesting), or None. Stated independently of the Coq model; the validity of a
+    host name or of an absolute URL is the url crate's business and is left open (second result)."""
+    if _depth(v) > MAX_DEPTH:
+        return "nested deeper than %d" % MAX_DEPTH, False
+    top = v[1]
+    for d, what in ((top, "top-level"), (info[1], "info")):
+        for k, _ in d:
+            if not _utf8(k):
+                return what + " key is not UTF-8", False
+    for k in (b"announce", b"comment", b"created by", b"encoding"):
+        x = lib.dget(v, k.decode())
+        if x is not None and not _text(x):
+            return "`%s` is not text" % k.decode(), False
+    al = lib.dget(v, "announce-list")
+    if al is not None and not (isinstance(al, list) and all(isinstance(t, list) and all(_text(u) for u in t) for t in al)):
+        return "`announce-list` is not a list of lists of text", False
+    cd = lib.dget(v, "creation date")
+    if cd is not None and not (isinstance(cd, int) and not isinstance(cd, bool) and 0 <= cd < 1 << 64):
+        return "`creation date` is not an unsigned 64-bit integer", False
+    open_ = False
+    nodes = lib.dget(v, "nodes")
+    if nodes is not None:
+        if not isinstance(nodes, list):
+            return "`nodes` is not a list", False
+        for n in nodes:
+            if not (isinstance(n, list) and len(n) == 2 and _text(n[0]) and isinstance(n[1], int) and 0 <= n[1] <= 65535):
+                return "a node is not [host text, port 0..65535]", False
+            if n[0] == b"":
+                return "a node has an empty host", False
+            open_ = True
+    pr = lib.dget(info, "private")
+    if pr is not None and not (isinstance(pr, int) and pr in (0, 1)):
+        return "`private` is not 0 or 1", False
+    so = lib.dget(info, "source")
+    if so is not None and not _text(so):
+        return "`source` is not text", False
+    uu = lib.dget(info, "update-url")
+    if uu is not None:
+        if not _text(uu):
+            return "`update-url` is not text", False
+        if not _SCHEME.match(uu):
+            return "`update-url` is not an absolute URL (no scheme)", False
+        open_ = True
+    # integers imdl does not read as u64 must fit a signed 64-bit integer
+    for k, x in top:
+        if k not in TOP_KEYS and any(not (I64[0] <= z <= I64[1]) for z in _ints(x)):
+            return "integer outside 64 bits under `%s`" % k.decode("latin-1"), False
+    for k, x in info[1]:
+        if k not in INFO_OWN and any(not (I64[0] <= z <= I64[1]) for z in _ints(x)):
+            return "integer outside 64 bits under info `%s`" % k.decode("latin-1"), False
+    return None, open_
+
+
+def ext_strings(tb):
+    """texts of a torrent that the url crate gets to see: (update-url candidates, node host candidates)"""
+    try:
+        v, _ = lib.bdecode_strict(tb)
+    except Exception:
+        return [], []
+    urls, hosts = [], []
+    info = lib.dget(v, "info")
+    if isinstance(info, tuple) and info[0] == "d":
+        uu = lib.dget(info, "update-url")
+        if _text(uu):
+            urls.append(uu)
+    nodes = lib.dget(v, "nodes")
+    if isinstance(nodes, list):
+        for n in nodes:
+            if isinstance(n, list) and n and _text(n[0]):
+                hosts.append(n[0])
+    return urls, hosts
+
+
+def node_host_text(h):
+    """what HostPort's deserialiser hands to url::Host::parse (src/host_port.rs): the text, in brackets when it has a colon"""
+    return b"[" + h + b"]" if b":" in h else h
+
+
+class Ext:
+    """answers of the url crate (Section variables host_disp / url_norm of the model), asked through the hooks
+    host_parse (`hostparse`) and magnet_print (`mprint`, which parses a tracker as a Url) and cached"""
+
+    def __init__(self, ctx):
+        self.ctx, self.url, self.host = ctx, {}, {}
+
+    def fill(self, urls, hosts):
+        qu = [u for u in dict.fromkeys(urls) if u not in self.url]
+        qh = [h for h in dict.fromkeys(hosts) if h not in self.host]
+        rep = self.ctx.harness(["mprint %s ~ %s ~ ~" % ("00" * 20, lib.hexs(u)) for u in qu] +
+                               ["hostparse %s" % lib.hexs(node_host_text(h)) for h in qh]) if (qu or qh) else []
+        for u, r in zip(qu, rep[:len(qu)]):
+            self.url[u] = r.startswith("OK ")
+        for h, r in zip(qh, rep[len(qu):]):
+            self.host[h] = r.startswith("OK ")
+
+
+def model_lines(ctx, recs):
+    """complete the model request of every record with the url crate's answers for the texts of its torrent"""
+    ext = Ext(ctx)
+    per = [ext_strings(rec["torrent"]) for rec in recs]
+    ext.fill([u for us, _ in per for u in us], [h for _, hs in per for h in hs])
+    out = []
+    for rec, (us, hs) in zip(recs, per):
+        ok_u = [u for u in dict.fromkeys(us) if ext.url.get(u)]
+        ok_h = [h for h in dict.fromkeys(hs) if ext.host.get(h)]
+        rec["ext"] = {"urls": {u.hex(): bool(ext.url.get(u)) for u in us}, "hosts": {h.hex(): bool(ext.host.get(h)) for h in hs}}
+        rec["model_line"] = rec["model_line"] + " %s %s" % (lib.hexlist(ok_u), lib.hexlist(ok_h))
+        rec["vload_line"] = "vload %s %s %s" % (lib.hexs(rec["torrent"]), lib.hexlist(ok_u), lib.hexlist(ok_h))
+        out.append(rec["model_line"])
+    return out
+
+
+def loader_verdict(reply):
+    """`vload` reply -> (projection accepts, typed loader accepts, extras hold) or None"""
+    f = reply.split()
+    return tuple(x == "1" for x in f[1:4]) if len(f) == 4 and f[0] == "OK" else None
+
+
 def read_torrent(tb):
     """-> (fields, None) or (None, why): the torrent as BEP 3 describes it, read with the
-    independent strict bencode reader. fields = name, p, pieces, files[(comps|None, length, md5)]"""
+    independent strict bencode reader. fields = name, p, pieces, files[(comps|None, length, md5)],
+    typed = why the rest of the metainfo is not loadable (None: it is), typed_open = a host / URL is present whose
+    validity only the url crate decides"""
     try:
         v, _ = lib.bdecode_strict(tb)
     except Exception as e:
         return None, "not bencode: %s" % e
+    if not (isinstance(v, tuple) and v[0] == "d"):
+        return None, "not a dictionary"
     info = lib.dget(v, "info")
     if not (isinstance(info, tuple) and info[0] == "d"):
         return None, "no info dictionary"
+    typed, typed_open = typed_problem(v, info)
     name, p, pieces = lib.dget(info, "name"), lib.dget(info, "piece length"), lib.dget(info, "pieces")
     if not isinstance(name, bytes) or not _utf8(name):
         return None, "name missing or not UTF-8 text"
-    if not isinstance(p, int) or isinstance(p, bool) or p < 0 or p >= 1 << 63:
+    if not isinstance(p, int) or isinstance(p, bool) or p < 0 or p >= 1 << 64:
         return None, "piece length missing or out of range"
     if not isinstance(pieces, bytes) or len(pieces) % 20:
         return None, "pieces missing or not a multiple of 20 bytes"
@@ -206,6 +376,9 @@ def read_torrent(tb):
         if not isinstance(fl, list):
             return None, "neither a usable length nor a files list"
         for f in fl:
+            if isinstance(f, list) and 2 <= len(f) <= 3:
+                # serde's sequence form of a struct, [length, path(, md5sum)]: not BEP 3, but imdl reads it
+                f = ("d", [(b"length", f[0]), (b"path", f[1])] + ([(b"md5sum", f[2])] if len(f) == 3 else []))
             if not (isinstance(f, tuple) and f[0] == "d"):
                 return None, "file entry is not a dictionary"
             n = length_of(f)
@@ -220,8 +393,10 @@ def read_torrent(tb):
                     not all(isinstance(c, bytes) and _utf8(c) for c in path):
                 return None, "file entry malformed"
             files.append((path, n, m))
+    if typed is None and not single_ok and sum(n for _, n, _ in files) >= 1 << 64:
+        typed = "the file lengths sum to 2^64 or more"
     return {"name": name, "p": p, "pieces": [pieces[i:i + 20] for i in range(0, len(pieces), 20)],
-            "files": files, "single": single_ok, "lenient": lenient}, None
+            "files": files, "single": single_ok, "lenient": lenient, "typed": typed, "typed_open": typed_open}, None
 
 
 def content_root(cwd, mode, arg, input_rel, name):
@@ -247,6 +422,12 @@ def oracle(tb, cwd, mode, arg, input_rel):
     if t is None:
         return {"wellformed": False, "why": why, "escape": False, "expect": None}
     res = {"wellformed": True, "why": "", "escape": False, "expect": None}
+    if t["typed"] is not None:
+        # the info fields are readable, the rest of the metainfo is not what imdl documents as loadable
+        res.update(wellformed=False, typed=t["typed"], expect="not-success",
+                   why="metainfo malformed outside the verified fields: " + t["typed"])
+        return res
+    res["typed_open"] = t["typed_open"]
     root = content_root(cwd, mode, arg, input_rel, t["name"])
     res["root"] = root
     lroot = _lex(root)
@@ -302,6 +483,9 @@ def oracle(tb, cwd, mode, arg, input_rel):
         return res
     want = [hashlib.sha1(blob[i:i + t["p"]]).digest() for i in range(0, len(blob), t["p"])]
     good = ok and want == t["pieces"]
+    if good and t["typed_open"]:
+        res["why"] = "content matches; whether the node hosts / update-url are valid is the url crate's verdict"
+        return res
     res["expect"] = "success" if good else "not-success"
     res["why"] = "files ok=%s pieces equal=%s" % (ok, want == t["pieces"])
     return res
@@ -345,7 +529,10 @@ def run_case(ctx, case, tmp):
         lib.hexs(arg) if rule_of(case["mode"]) == "base" else "~",
         "~" if via_stdin(case["mode"]) else lib.hexs(case["input"]),
         lib.hexs(tb), seed)
+    # the step line `[2/2] ... Verifying pieces from ...` is written once the metainfo has been loaded (Verify::run):
+    # whether the loader accepted, observable even when the verdict is a failure either way
     return {"case": case, "sandbox": sandbox, "argv": argv, "rc": rc, "stderr": err.decode("utf-8", "replace")[-400:],
+            "began": b"[2/2]" in err,
             "stdout_len": len(out), "oracle": orc, "unchanged": before == after, "model_line": line, "torrent": tb}
 
 
@@ -361,6 +548,7 @@ def describe(rec, model=None):
     return {"tag": c["tag"], "case": to_js(c), "argv": ["imdl"] + rec["argv"], "exit_status": rec["rc"],
             "stderr_tail": rec["stderr"], "oracle": {k: (v.hex() if isinstance(v, bytes) else v) for k, v in rec["oracle"].items()},
             "model": model, "sandbox_unchanged": rec["unchanged"], "torrent_bencode": rec["torrent"],
+            "began_verifying": rec.get("began"), "model_loader": rec.get("model_loader"), "url_crate": rec.get("ext"),
             "reproduce": "./check %s --replay <this file>   (rebuilds the sandbox from `case`, runs `imdl %s` in it%s)"
                          % (ctx_pid(rec), " ".join(rec["argv"]), ", torrent on stdin" if via_stdin(c["mode"]) else "")}
 
@@ -379,7 +567,8 @@ def replay(ctx, path, pid):
     tmp = tempfile.mkdtemp(prefix="vfy-replay-")
     try:
         rec = run_case(ctx, case, tmp)
-        model = ctx.model([rec["model_line"]])[0]
+        model = ctx.model(model_lines(ctx, [rec]))[0]
+        print("url crate:", rec.get("ext"))
         print("case  :", case["tag"], "| mode", case["mode"])
         print("argv  :", "imdl " + " ".join(rec["argv"]))
         print("torrent:", rec["torrent"][:300])
